@@ -49,14 +49,25 @@ func main() {
 			c.Arg[p[0]] = p[1]
 		}
 	}
-	fn(c)
+	// a generator that dies on something the code under test returned (an empty string where it builds on it, ...) must
+	// not take the run with it: what was recorded so far is still judged, and the abort is reported in the stats (the
+	// driver turns it into exit 2 only if nothing was rejected)
+	aborted := ""
+	func() {
+		defer func() {
+			if r := recover(); r != nil {
+				aborted = fmt.Sprintf("%v", r)
+			}
+		}()
+		fn(c)
+	}()
 	c.ConcurrentReplay()
 	c.DeferredCheck()
 	c.RetainCheck()
 	c.Flush()
 	c.out.Flush()
 	f.Close()
-	st := map[string]interface{}{"family": fam, "histories": c.nh, "events": c.NEv, "ops": c.OpCnt}
+	st := map[string]interface{}{"family": fam, "histories": c.nh, "events": c.NEv, "ops": c.OpCnt, "aborted": aborted}
 	b, _ := json.Marshal(st)
 	if *stats != "" {
 		os.WriteFile(*stats, b, 0o644)
